@@ -167,7 +167,12 @@ JudgeRec(r, bd, popped) ==
                          => (r.reason = "5-Fold Repetition") = (B!Occurrences(bd) >= 5)))
    ELSE {})
   \cup
-  (IF Want("C07") THEN Chk("c07.incremental", r.hash = r.scratch) ELSE {})
+  (IF Want("C07") THEN Chk("c07.incremental", r.hash = r.scratch)
+                       \* the position and its one-component variants (side to move, one castling right, the en
+                       \* passant target on every file): different four-field texts, different hashes
+                       \cup Chk("c07.component-collision", \A i, j \in 1..Len(r.variants) :
+                                  r.variants[i].id # r.variants[j].id => r.variants[i].hash # r.variants[j].hash)
+   ELSE {})
   \cup
   (IF Want("C08") THEN
         Chk("c08.position", r.pos = pos)
